@@ -4,6 +4,7 @@ import (
 	"bytes"
 	"fmt"
 	"math"
+	"math/bits"
 	"os"
 	"runtime"
 	"runtime/debug"
@@ -181,7 +182,7 @@ func kOf(n int) uint {
 	case -1:
 		return math.MaxUint
 	case -2:
-		return 1 << 63
+		return uint(1) << (bits.UintSize - 1)
 	case -3:
 		return math.MaxInt
 	}
